@@ -30,7 +30,7 @@ def verify(name, wt):
     os.rename(demo, aside)
     rc, out = sh("cargo test --workspace --offline 2>&1 | grep -E '^test result|FAILED|error' ", cwd=wt)
     res["suite_with_change"] = out.strip().splitlines()
-    res["suite_passes_with_change"] = ("FAILED" not in out and "error" not in out and out.count("test result: ok") >= 6)
+    res["suite_passes_with_change"] = (not any('FAILED' in l or l.startswith('error') for l in out.splitlines())) and out.count('test result: ok') >= 8
     os.rename(aside, demo)
     rc, out = sh(f"cargo test --offline -p {pkg} --test demo_mut 2>&1 | grep -E '^test result|panicked|error' | head -5", cwd=wt)
     res["demo_with_change"] = out.strip().splitlines()
